@@ -154,6 +154,13 @@ def s1(ctx, rep):
     # payload parsed with json.loads and appended in match order
     loop = [n for n in walk_shallow(r.node) if isinstance(n, ast.For) and n.iter is fa[0]]
     ok = False
+    # ... as a comprehension over the matches, or as a loop that appends
+    from .common import returned_list_sites
+    for x_, elt, at_, its in returned_list_sites(ctx, r):
+        if isinstance(x_, ast.ListComp) and len(x_.generators) == 1 and x_.generators[0].iter is fa[0] and not at_ \
+                and isinstance(x_.generators[0].target, ast.Name) and isinstance(elt, ast.Call) and U(elt.func) == "json.loads" \
+                and U(argn(elt, 0)) == x_.generators[0].target.id:
+            ok = True
     if loop:
         tv = loop[0].target.id if isinstance(loop[0].target, ast.Name) else None
         for st in loop[0].body:
